@@ -6,7 +6,9 @@ import (
 	"encoding/json"
 	"errors"
 	"fmt"
+	"runtime"
 	"sort"
+	"strings"
 	"sync"
 	"testing"
 	"time"
@@ -34,6 +36,8 @@ type Cfg struct {
 	Consumers  int    `json:"consumers"`
 	Block      bool   `json:"block_on_overflow"`
 	WFR        bool   `json:"wait_for_result"`
+	// SlowStorageUS > 0: every mutating storage operation of the persistent queue takes this long
+	SlowStorageUS int `json:"slow_storage_us,omitempty"`
 }
 
 // Op is one harness action.
@@ -190,7 +194,11 @@ func newWorld(cfg Cfg) (*world, *vt.Finding) {
 	q.NumConsumers = cfg.Consumers
 	q.BlockOnOverflow = cfg.Block
 	q.WaitForResult = cfg.WFR
-	var host = xh.HostWith(xh.NewRecorder(nil))
+	rec := xh.NewRecorder(nil)
+	if cfg.SlowStorageUS > 0 {
+		rec.SetDelay(time.Duration(cfg.SlowStorageUS) * time.Microsecond)
+	}
+	var host = xh.HostWith(rec)
 	if cfg.Persistent {
 		sid := xh.StorageID
 		q.StorageID = &sid
@@ -415,7 +423,7 @@ func (w *world) reconcile(c *vt.C) *vt.Finding {
 				more = queued
 			}
 			if !w.waitParked(inflight+more, watchdog) {
-				return vt.Failf("consumer-idle", "%d request(s) are queued and %d consumer(s) are idle, but no hand-off happened within %v", queued, free, watchdog)
+				return stuckf("consumer-idle", "%d request(s) are queued and %d consumer(s) are idle, but no hand-off happened within %v", queued, free, watchdog)
 			}
 			return w.reconcile(c)
 		}
@@ -469,7 +477,7 @@ func (w *world) reconcile(c *vt.C) *vt.Finding {
 				case <-w.note:
 				case <-time.After(time.Millisecond):
 				case <-deadline:
-					return vt.Failf("blocked-while-empty", "the queue is empty but %d producer(s) stay blocked (first: rid=%d size %d, capacity %d)", len(bl), bl[0].rid, bl[0].size, w.capUnits())
+					return stuckf("blocked-while-empty", "the queue is empty but %d producer(s) stay blocked (first: rid=%d size %d, capacity %d)", len(bl), bl[0].rid, bl[0].size, w.capUnits())
 				}
 			}
 		}
@@ -499,7 +507,7 @@ func (w *world) doOffer(c *vt.C, n int, cancelable bool) *vt.Finding {
 	case p.size == 0 && !w.cfg.Persistent:
 		// zero-sized: accepted at once, promise nothing about hand-off
 		if !waitReturn(p, watchdog) {
-			return vt.Failf("offer-stuck", "offer of a zero-sized request did not return")
+			return stuckf("offer-stuck", "offer of a zero-sized request did not return")
 		}
 		if p.err != nil {
 			return vt.Failf("zero-refused", "zero-sized request was refused: %v", p.err)
@@ -508,7 +516,7 @@ func (w *world) doOffer(c *vt.C, n int, cancelable bool) *vt.Finding {
 		c.Class("offer-zero-sized")
 	case p.size > capv:
 		if !waitReturn(p, watchdog) {
-			return vt.Failf("offer-stuck", "offer of a request larger than the capacity (size %d, capacity %d) did not return", p.size, capv)
+			return stuckf("offer-stuck", "offer of a request larger than the capacity (size %d, capacity %d) did not return", p.size, capv)
 		}
 		if p.err == nil {
 			return vt.Failf("oversized-accepted", "request of size %d was accepted by a queue of capacity %d", p.size, capv)
@@ -537,7 +545,7 @@ func (w *world) doOffer(c *vt.C, n int, cancelable bool) *vt.Finding {
 			p.state = "blocked"
 		default:
 			if !waitReturn(p, watchdog) {
-				return vt.Failf("offer-stuck", "non-blocking offer rid=%d did not return", p.rid)
+				return stuckf("offer-stuck", "non-blocking offer rid=%d did not return", p.rid)
 			}
 			if p.err == nil {
 				w.size += p.size
@@ -556,7 +564,7 @@ func (w *world) doOffer(c *vt.C, n int, cancelable bool) *vt.Finding {
 			p.acceptLo, p.acceptHi = w.step, w.step
 		} else {
 			if !waitReturn(p, watchdog) {
-				return vt.Failf("offer-stuck", "offer of rid=%d (size %d, %d of %d in use) did not return", p.rid, p.size, before, capv)
+				return stuckf("offer-stuck", "offer of rid=%d (size %d, %d of %d in use) did not return", p.rid, p.size, before, capv)
 			}
 			if p.err != nil {
 				return vt.Failf("refused-although-fits", "request of size %d refused (%v) while the reported size was %d of %d", p.size, p.err, before, capv)
@@ -568,7 +576,7 @@ func (w *world) doOffer(c *vt.C, n int, cancelable bool) *vt.Finding {
 		c.Class("offer-accepted")
 	case !w.cfg.Block:
 		if !waitReturn(p, watchdog) {
-			return vt.Failf("offer-stuck", "offer into a full non-blocking queue did not return")
+			return stuckf("offer-stuck", "offer into a full non-blocking queue did not return")
 		}
 		if p.err == nil {
 			return vt.Failf("accepted-over-capacity", "request of size %d accepted while the reported size was %d of %d", p.size, before, capv)
@@ -614,7 +622,7 @@ func (w *world) complete(c *vt.C, pick int, fail bool) *vt.Finding {
 	if w.cfg.WFR {
 		// the producer must now receive exactly this outcome (unless cancelled first)
 		if !waitReturn(p, watchdog) {
-			return vt.Failf("result-missing", "wait_for_result: producer rid=%d did not return after its request finished", p.rid)
+			return stuckf("result-missing", "wait_for_result: producer rid=%d did not return after its request finished", p.rid)
 		}
 		if !p.returned {
 			p.returned = true
@@ -644,7 +652,7 @@ func (w *world) cancelOne(c *vt.C, pick int) *vt.Finding {
 	p.cancel()
 	c.Class("cancel:" + p.state)
 	if !waitReturn(p, watchdog) {
-		return vt.Failf("cancel-ignored", "producer rid=%d (state %s) did not return after its context was cancelled", p.rid, p.state)
+		return stuckf("cancel-ignored", "producer rid=%d (state %s) did not return after its context was cancelled", p.rid, p.state)
 	}
 	if p.state != "blocked" { // waiting for a result: returns the context's error, the request itself stays
 		p.returned = true
@@ -713,7 +721,7 @@ func (w *world) burst(c *vt.C, op *Op) *vt.Finding {
 		}
 		if w.cfg.WFR {
 			if !waitReturn(p, watchdog) {
-				return vt.Failf("result-missing", "wait_for_result: producer rid=%d did not return after its request finished (burst)", p.rid)
+				return stuckf("result-missing", "wait_for_result: producer rid=%d did not return after its request finished (burst)", p.rid)
 			}
 			if !p.returned {
 				p.returned = true
@@ -725,7 +733,7 @@ func (w *world) burst(c *vt.C, op *Op) *vt.Finding {
 	}
 	for _, p := range cs {
 		if !waitReturn(p, watchdog) {
-			return vt.Failf("cancel-ignored", "blocked producer rid=%d did not return after its context was cancelled (burst)", p.rid)
+			return stuckf("cancel-ignored", "blocked producer rid=%d did not return after its context was cancelled (burst)", p.rid)
 		}
 	}
 	w.quiesce()
@@ -764,7 +772,7 @@ func (w *world) burst(c *vt.C, op *Op) *vt.Finding {
 		default:
 			if !w.cfg.Block {
 				if !waitReturn(p, watchdog) {
-					return vt.Failf("offer-stuck", "non-blocking offer rid=%d did not return (burst)", p.rid)
+					return stuckf("offer-stuck", "non-blocking offer rid=%d did not return (burst)", p.rid)
 				}
 				if p.err == nil {
 					p.state, p.returned = "queued", true
@@ -833,7 +841,7 @@ func (w *world) finish(c *vt.C) *vt.Finding {
 						continue
 					}
 				}
-				return vt.Failf("stalled", "nothing is in flight, yet requests are pending and nothing happens: %v (model size %d of %d)", desc, w.size, w.capUnits())
+				return stuckf("stalled", "nothing is in flight, yet requests are pending and nothing happens: %v (model size %d of %d)", desc, w.size, w.capUnits())
 			}
 			continue
 		}
@@ -991,4 +999,217 @@ func gen(t *rapid.T) Script {
 func TestQueueModel(t *testing.T) {
 	cQ.ReplayRepeat = 20
 	vt.Run(t, cQ, vt.N(1600, 60000), gen, run)
+}
+
+// ---------------------------------------------------------------------------
+// cancel storm: blocked producers are cancelled at the very moment completions
+// free space.  Every producer must return (admitted, or with its context's
+// error), and the queue must keep working afterwards.
+
+// Storm is a script for the cancel-storm check.
+type Storm struct {
+	Cfg       Cfg `json:"cfg"`
+	Blocked   int `json:"blocked"`   // producers blocked on a full queue
+	Completes int `json:"completes"` // completions released together with the cancellations
+	Cancels   int `json:"cancels"`   // how many of the blocked producers are cancelled
+	Rounds    int `json:"rounds"`
+}
+
+var cStorm = vt.New("C02", "cancel-storm")
+
+func genStorm(t *rapid.T) Storm {
+	var s Storm
+	s.Cfg.Sizer = "requests"
+	s.Cfg.Persistent = rapid.Bool().Draw(t, "persistent")
+	if s.Cfg.Persistent {
+		s.Cfg.SlowStorageUS = rapid.SampledFrom([]int{0, 100, 400}).Draw(t, "slow_storage")
+	}
+	s.Cfg.Cap = rapid.IntRange(2, 4).Draw(t, "cap")
+	s.Cfg.Consumers = s.Cfg.Cap
+	s.Cfg.Block = true
+	s.Blocked = rapid.IntRange(2, 4).Draw(t, "blocked")
+	s.Completes = rapid.IntRange(1, s.Cfg.Cap).Draw(t, "completes")
+	s.Cancels = rapid.IntRange(1, s.Blocked).Draw(t, "cancels")
+	s.Rounds = rapid.IntRange(5, 40).Draw(t, "rounds")
+	return s
+}
+
+func runStorm(s Storm) (nontrivial bool, key string, f *vt.Finding) {
+	b, _ := json.Marshal(s)
+	key = string(b)
+	cStorm.HangGuard(120*time.Second, s, "hang/queue-storm", func() { f = runStormInner(&s) })
+	return s.Cancels >= 2 && s.Completes >= 2, key, f
+}
+
+func runStormInner(s *Storm) *vt.Finding {
+	w, f := newWorld(s.Cfg)
+	if f != nil {
+		return f
+	}
+	release := func() {
+		for i := 0; i < 200; i++ {
+			w.mu.Lock()
+			hs := w.park
+			w.park = nil
+			w.mu.Unlock()
+			for _, h := range hs {
+				h.ch <- nil
+			}
+			for _, p := range w.prods {
+				p.cancel()
+			}
+			time.Sleep(time.Millisecond)
+		}
+	}
+	fail := func(f *vt.Finding) *vt.Finding {
+		go release()
+		go func() { _ = w.exp.Shutdown(context.Background()) }()
+		return f
+	}
+	for round := 0; round < s.Rounds; round++ {
+		// fill: cap requests in flight (one per consumer)
+		var inflight []*producer
+		for len(inflight) < s.Cfg.Cap {
+			p := w.offer(1, false)
+			if !waitReturn(p, watchdog) {
+				buf := make([]byte, 1<<20)
+				n := runtime.Stack(buf, true)
+				return fail(stuckf("offer-stuck", "round %d: an offer into a queue in which every earlier request has finished did not return within %v; cfg %+v\n%s", round, watchdog, s.Cfg, queueStacks(string(buf[:n]))))
+			}
+			if p.err != nil {
+				return fail(vt.Failf("storm/fill", "round %d: filling offer failed: %v", round, p.err))
+			}
+			inflight = append(inflight, p)
+		}
+		if !w.waitParked(s.Cfg.Cap, watchdog) {
+			return fail(stuckf("consumer-idle", "round %d: %d requests accepted, %d consumers, only %d hand-offs", round, s.Cfg.Cap, s.Cfg.Consumers, w.parkedCount()))
+		}
+		// blocked producers
+		var blocked []*producer
+		for i := 0; i < s.Blocked; i++ {
+			blocked = append(blocked, w.offer(1, true))
+		}
+		time.Sleep(300 * time.Microsecond)
+		// storm
+		start := make(chan struct{})
+		var wg sync.WaitGroup
+		w.mu.Lock()
+		hs := append([]*handoff(nil), w.park[:s.Completes]...)
+		w.park = w.park[s.Completes:]
+		w.mu.Unlock()
+		for _, h := range hs {
+			wg.Add(1)
+			go func(h *handoff) { defer wg.Done(); <-start; h.ch <- nil }(h)
+		}
+		for _, p := range blocked[:s.Cancels] {
+			wg.Add(1)
+			go func(p *producer) { defer wg.Done(); <-start; p.cancel() }(p)
+		}
+		close(start)
+		wg.Wait()
+		// every cancelled producer returns; the others get in as space frees up
+		for _, p := range blocked[:s.Cancels] {
+			if !waitReturn(p, watchdog) {
+				return fail(stuckf("cancel-ignored", "round %d: blocked producer did not return within %v after its context was cancelled while %d completions were freeing space (%d blocked, %d cancelled); cfg %+v", round, watchdog, s.Completes, s.Blocked, s.Cancels, s.Cfg))
+			}
+			if p.err != nil && !errors.Is(p.err, context.Canceled) {
+				return fail(vt.Failf("blocked-offer-result", "round %d: cancelled producer returned %v", round, p.err))
+			}
+		}
+		// drain everything: complete whatever is or gets in flight until all producers have returned
+		deadline := time.Now().Add(watchdog)
+		for {
+			all := true
+			for _, p := range blocked {
+				if !returned(p) {
+					all = false
+				}
+			}
+			w.mu.Lock()
+			hs := w.park
+			w.park = nil
+			w.mu.Unlock()
+			for _, h := range hs {
+				h.ch <- nil
+			}
+			if all && len(hs) == 0 && w.reportedSize() == 0 {
+				// stable emptiness: nothing in flight, nothing queued, twice in a row across a pause that
+				// is long compared with a (slow) storage operation
+				time.Sleep(3*time.Millisecond + 6*time.Duration(s.Cfg.SlowStorageUS)*time.Microsecond)
+				if w.parkedCount() == 0 && w.reportedSize() == 0 {
+					break
+				}
+			}
+			if time.Now().After(deadline) {
+				return fail(stuckf("stalled", "round %d: after the storm the queue does not drain: producers returned=%v parked=%d; cfg %+v", round, all, w.parkedCount(), s.Cfg))
+			}
+			time.Sleep(100 * time.Microsecond)
+		}
+		w.mu.Lock()
+		w.seen = map[int64]int{}
+		w.order = nil
+		w.mu.Unlock()
+		w.prods = map[int64]*producer{}
+	}
+	// late hand-offs (slow storage) may still arrive: keep completing them while Shutdown runs
+	stop := make(chan struct{})
+	go func() {
+		for {
+			select {
+			case <-stop:
+				return
+			case <-time.After(200 * time.Microsecond):
+			}
+			w.mu.Lock()
+			hs := w.park
+			w.park = nil
+			w.mu.Unlock()
+			for _, h := range hs {
+				h.ch <- nil
+			}
+		}
+	}()
+	ok, st := vt.WithWatchdog(2*watchdog, func() { _ = w.exp.Shutdown(context.Background()) })
+	close(stop)
+	if !ok {
+		return vt.Failf("shutdown-blocks", "Shutdown after the storms did not return; cfg %+v\n%s", s.Cfg, queueStacks(st))
+	}
+	_ = w.tel.Shutdown(context.Background())
+	cStorm.ClassN("rounds", int64(s.Rounds))
+	return nil
+}
+
+func TestCancelStorm(t *testing.T) {
+	vt.Run(t, cStorm, vt.N(200, 6000), genStorm, runStorm)
+}
+
+// queueStacks keeps the goroutines that are inside the queue package.
+func queueStacks(st string) string {
+	var keep []string
+	for _, blk := range strings.Split(st, "\n\n") {
+		if strings.Contains(blk, "internal/queuebatch.") {
+			lines := strings.Split(blk, "\n")
+			var fn []string
+			for i, l := range lines {
+				if i == 0 || (strings.Contains(l, "queuebatch.") && !strings.HasPrefix(l, "\t")) {
+					fn = append(fn, strings.TrimSpace(l))
+				}
+			}
+			keep = append(keep, strings.Join(fn, " <- "))
+		}
+	}
+	sort.Strings(keep)
+	if len(keep) > 12 {
+		keep = keep[:12]
+	}
+	return strings.Join(keep, "\n")
+}
+
+// stuckf is vt.Failf for liveness failures: it appends the goroutines that are inside the queue package.
+func stuckf(sig, format string, args ...any) *vt.Finding {
+	buf := make([]byte, 1<<20)
+	n := runtime.Stack(buf, true)
+	f := vt.Failf(sig, format, args...)
+	f.Msg += "\nqueue goroutines:\n" + queueStacks(string(buf[:n]))
+	return f
 }
